@@ -166,7 +166,8 @@ def scalar_domain(a, tier, shrink=0):
         return list(range(0, n + 1))
     if kind == "step":
         # a slice step is never 0 and never kSliceNone when it reaches a kernel
-        return [1, -1, 2] if tier == "quick" or shrink else [1, -1, 2, -2, 3]
+        # negative steps below -1 round differently from positive ones (ceil vs floor of the span): both signs at size 2
+        return [1, -1, 2, -2] if tier == "quick" or shrink else [1, -1, 2, -2, 3, -3]
     if kind == "position":
         d = [0, 1, -1, 2]
         if tier != "quick" and shrink == 0:
